@@ -77,7 +77,11 @@ func (y *c12L1Sys) Root() *c12L1State {
 	return &c12L1State{ctx: ctx, w: w, prop: [2]string{"proposer", "proposer"}, chal: [2]string{"challenger", "challenger"}}
 }
 
-func (y *c12L1Sys) Digest(s *c12L1State) [32]byte { return s.w.Digest(s.ctx) }
+// the model is part of the state key: a change that turns an operation into a no-op on the stores must
+// not make the successor look like an already visited state (its model differs, and Check has to see it)
+func (y *c12L1Sys) Digest(s *c12L1State) [32]byte {
+	return s.w.Digest(s.ctx, []byte(fmt.Sprint(s.prop, s.chal)))
+}
 
 func (y *c12L1Sys) Letters(s *c12L1State) []engine.Letter {
 	var ls []engine.Letter
@@ -269,7 +273,13 @@ func (y *c12L2Sys) Root() *c12L2State {
 	return &c12L2State{ctx: w.Ctx, w: w, admin: "admin", execs: []string{"e1"}}
 }
 
-func (y *c12L2Sys) Digest(s *c12L2State) [32]byte { return s.w.Digest(s.ctx) }
+func (y *c12L2Sys) Digest(s *c12L2State) [32]byte {
+	info := "none"
+	if s.info != nil {
+		info = s.info.L1ClientId + "|" + fmt.Sprint(s.info.BridgeConfig.OracleEnabled)
+	}
+	return s.w.Digest(s.ctx, []byte(fmt.Sprint(s.admin, s.execs, info, s.planned)))
+}
 
 func (s *c12L2State) addr(name string) string {
 	if name == "authority" {
@@ -294,8 +304,10 @@ func (y *c12L2Sys) Letters(s *c12L2State) []engine.Letter {
 		{Name: "SetExecutors(e1)", Data: c12SetExecs{[]string{"e1"}}},
 		{Name: "SetExecutors(e2)", Data: c12SetExecs{[]string{"e2"}}},
 		{Name: "SetExecutors(e1,e2)", Data: c12SetExecs{[]string{"e1", "e2"}}},
-		{Name: "SetBridgeInfo(client=\"\")", Data: c12SetInfo{""}},
-		{Name: "SetBridgeInfo(client=07-tendermint-0)", Data: c12SetInfo{"07-tendermint-0"}},
+		{Name: "SetExecutors()", Data: c12SetExecs{nil}}, // every executor is revoked: nobody holds the role
+	}
+	if len(s.execs) > 0 { // sent by a current executor
+		ls = append(ls, engine.Letter{Name: "SetBridgeInfo(client=\"\")", Data: c12SetInfo{""}}, engine.Letter{Name: "SetBridgeInfo(client=07-tendermint-0)", Data: c12SetInfo{"07-tendermint-0"}})
 	}
 	if !s.planned {
 		// the plan's list is shorter, longer or as long as the current one, and ends differently
